@@ -253,7 +253,7 @@ def main():
         tot, levels, samples, st, len(items),
         "trace = one real history of steps/compilations with different values, engines and options on the same network objects, followed by a repeat of the first step; "
         "per trace: identity snapshot of caller-held arrays / dictionaries / parameters after every step, and one z3 equality per next-state component (repeat == first)",
-        {"bounds": {"family": "K (18 curated)", "history_length": L, "alphabet": ALPHA, "histories_per_topology": "all" if args.thorough else "every 3rd (rotating)"},
+        {"bounds": {"family": "K (20 curated)", "history_length": L, "alphabet": ALPHA, "histories_per_topology": "all" if args.thorough else "every 3rd (rotating)"},
          "histories": extra.get("histories", 0), "float_twins": extra.get("float_twins", 0),
          "functions_encoded": ["Network.step", "element init_vars / step", "NumPy engine primitives (in-place operations)", "CasADi step / to_function on the same objects"]})
     cov["traces_validated_against_impl"] = extra.get("histories", 0)
